@@ -52,6 +52,14 @@ type Recorder struct {
 	// streams and notice that the session died; when set, the recorder runs the
 	// accept loop the transport controller would run and closes a dead link.
 	pump bool
+	// lostGate: while not nil, loss reports are recorded on arrival but handed to
+	// the inner handler only once the gate is closed (HoldLost(false)). The
+	// transport makes every report from a goroutine of its own, so the order in
+	// which the handler gets an established and a lost report of two different
+	// links is not fixed by the code: this makes the "loss seen late" schedule
+	// reproducible without any timing.
+	lostGate chan struct{}
+	lostHeld int
 }
 
 // NewRecorder builds a recorder forwarding to inner (may be nil).
@@ -93,10 +101,49 @@ func (r *Recorder) HandleLinkLost(lnk link.Link) {
 	close(r.notify)
 	r.notify = make(chan struct{})
 	in := r.inner
+	gate := r.lostGate
+	if gate != nil {
+		r.lostHeld++
+	}
 	r.mu.Unlock()
+	if gate != nil {
+		<-gate
+	}
 	if in != nil {
 		in.HandleLinkLost(lnk)
 	}
+}
+
+// HoldLost(true): from now on loss reports are kept from the inner handler
+// (they are still recorded on arrival); HoldLost(false) hands them over.
+func (r *Recorder) HoldLost(on bool) {
+	r.mu.Lock()
+	defer r.mu.Unlock()
+	if on {
+		if r.lostGate == nil {
+			r.lostGate = make(chan struct{})
+		}
+		return
+	}
+	if r.lostGate != nil {
+		close(r.lostGate)
+		r.lostGate = nil
+	}
+}
+
+// LostHeld returns how many loss reports arrived while a HoldLost gate was up.
+func (r *Recorder) LostHeld() int {
+	r.mu.Lock()
+	defer r.mu.Unlock()
+	return r.lostHeld
+}
+
+// Len is the recorder's logical clock: the number of callbacks seen so far
+// (the index the next event will get in Events()).
+func (r *Recorder) Len() int {
+	r.mu.Lock()
+	defer r.mu.Unlock()
+	return len(r.events)
 }
 
 // Events returns a copy of the events so far and a channel closed on the next event.
@@ -150,10 +197,15 @@ type Remote struct {
 // StartRemote builds a real pconn transport for the identity on a new
 // endpoint with the given home address and runs its accept loop.
 func StartRemote(ctx context.Context, le *logrus.Entry, n *SwitchNet, home string, id *keys.Identity) (*Remote, error) {
+	return StartRemoteWithOpts(ctx, le, n, home, id, Opts())
+}
+
+// StartRemoteWithOpts is StartRemote with the caller's transport options.
+func StartRemoteWithOpts(ctx context.Context, le *logrus.Entry, n *SwitchNet, home string, id *keys.Identity, opts *pconn.Opts) (*Remote, error) {
 	ep := n.NewEndpoint(home)
 	rec := NewRecorder(nil)
 	rec.pump = true
-	tpt, err := pconn.NewTransport(ctx, le, id.Priv, rec, Opts(), 0, ep, n.ParseAddr, nil)
+	tpt, err := pconn.NewTransport(ctx, le, id.Priv, rec, opts, 0, ep, n.ParseAddr, nil)
 	if err != nil {
 		return nil, err
 	}
